@@ -2,6 +2,7 @@ import WhVerif.Lemmas.C01Dp
 import WhVerif.Lemmas.C01Flat
 import WhVerif.Lemmas.C01Gray
 import WhVerif.Lemmas.C01Table
+import WhVerif.Lemmas.C01GrayOrder
 import WhVerif.Lemmas.C01WitnessMain
 import WhVerif.Lemmas.C01WitnessAlleles
 /-!
@@ -145,6 +146,22 @@ theorem walk_in_sync (I : Inst) (c t k : Nat) (hk : k < 2 ^ (I.activeAt c).lengt
   WhVerif.C01.walk_in_sync I c t k hk
 
 example : TabWF exTrio 0 2 := by apply TabWF_of_check; decide
+
+/-- `compute_column` visits the bipartitions in Gray-code order and keeps strict minima; the executable model
+visits them in index order. The projection column (and the last column's optimum) is the same: it only depends
+on the SET of cells, and the Gray code visits every index exactly once. -/
+theorem projTable_gray_order (I : Inst) (c : Nat) (prev : Array (Option Nat)) (k : Nat)
+    (hk : k < 2 ^ (I.sharedAt c).length * I.ntrans) :
+    (bucketMin (2 ^ (I.sharedAt c).length * I.ntrans) (grayPairs (I.activeAt c).length I.ntrans)
+        (fun it => natOfBits (fwdBits I c (bitsOf (I.activeAt c).length it.1)) * I.ntrans + it.2)
+        (fun it => dpCell I c prev it.1 it.2)).getD k none
+      = (projTable I c prev).getD k none :=
+  WhVerif.C01.projTable_gray_order I c prev k hk
+
+theorem lastCol_gray_order (I : Inst) (c : Nat) (prev : Array (Option Nat)) :
+    minOver (grayPairs (I.activeAt c).length I.ntrans) (fun it => dpCell I c prev it.1 it.2)
+      = minOver (pairs (2 ^ (I.activeAt c).length) I.ntrans) (fun it => dpCell I c prev it.1 it.2) :=
+  WhVerif.C01.lastCol_gray_order I c prev
 
 /-! Non-vacuity: a concrete trio instance (3 reads, 3 columns, distinct weights) satisfies `WF`, and the
 theorem's two sides evaluate to the same non-trivial number. -/
